@@ -33,6 +33,7 @@ From RM Require Proofs.Enc2SvReal.
 From RM Require Import Proofs.Enc2SvRT Proofs.Enc2Framing Proofs.Enc2SampleShape.
 From RM Require Import Proofs.Enc3Framing Proofs.Enc3Timing Proofs.Enc3Nodes Proofs.Enc3Objects Proofs.Enc3Chrono Proofs.Enc3NodeInv Proofs.Enc3Map Proofs.Enc3Example.
 From RM Require Import Proofs.MapLevelFacts.
+From RM Require Import Proofs.Enc4Inv Proofs.Enc4Times Proofs.Enc4Map Proofs.Enc4Stored.
 From Coq Require Sorting.Sorted.
 From Coq Require Reals.
 From RM Require Model.Curve.
@@ -1257,6 +1258,307 @@ Example C02_round_trip_example :
       Forall2 (final_rel_decoded lm0) (hov_hit_objects (bmv_ho m)) (hov_hit_objects (bmv_ho m2)).
 Proof. exact all_kinds_round_trip. Qed.
 
+(* ---------- the top-level statement with ONLY recorded classes as object hypotheses ---------- *)
+
+(* Class D33 as a decidable predicate on a (decoded) object: a spinner / hold whose stored start s
+   and duration d satisfy clip(fl(fl(s + d) - s)) <> d, clipped as the decoder clips it.  The time
+   condition of [obj_classes] is a function of the stored (start, duration) only and EQUIVALENT to
+   "not in the class". *)
+Theorem C02_d33_class_is_the_time_condition :
+  forall h, d33_object h = false <->
+    match h_kind h with
+    | KSpinner s => spinner_time_ok (h_start h) (sp_duration s)
+    | KHold hd => hold_time_ok (h_start h) (hd_duration hd)
+    | _ => True
+    end.
+Proof. exact d33_object_spec. Qed.
+Print Assumptions C02_d33_class_is_the_time_condition.
+
+(* the class is inhabited -- by the stored data of C02_times_ok_refuted ... *)
+Theorem C02_d33_class_witness :
+  exists s e,
+    D.bits s = 4413527634823086080 /\ D.bits e = 4652218415073722369 /\
+    in_lim64 s = true /\ in_lim64 e = true /\
+    (forall smp nc, d33_object (mkHObj s (KSpinner (mkSpinner spinner_pos (spinner_dur s e) nc)) smp) = true) /\
+    (forall smp x, d33_object (mkHObj s (KHold (mkHold x (hold_dur s e))) smp) = true).
+Proof. exact d33_object_witness. Qed.
+Print Assumptions C02_d33_class_witness.
+
+(* ... and by a DECODED map: the spinner and the hold of the file
+     256,192,0.00000000000011368683772161603,12,0,1024.0000000000002
+     256,192,0.00000000000011368683772161603,128,0,1024.0000000000002:0:0:0:0:
+   are stored with duration 1024 and are in the class (and in no other) *)
+Example C02_d33_decoded_witness :
+  match decode_beatmap (dist_real lm0) (lines_of_text d33_text) with
+  | Done m =>
+      let objs := hov_hit_objects (bmv_ho m) in
+      map (fun h => kind_tag (h_kind h)) objs = [2; 3] /\
+      map (fun h => D.bits (h_start h)) objs = [4413527634823086080; 4413527634823086080] /\
+      map (fun h => match h_kind h with KSpinner s => D.bits (sp_duration s) | KHold hd => D.bits (hd_duration hd) | _ => 0 end) objs
+        = [4652218415073722368; 4652218415073722368] /\
+      map d33_object objs = [true; true] /\
+      map d30_class objs = [false; false] /\ map d26_class objs = [false; false] /\
+      objects_in_classes lm0 m = true
+  | _ => False
+  end.
+Proof. exact d33_decoded_witness. Qed.
+
+(* The link between the stored duration and the decoder's form, as an invariant of EVERY decoded map
+   (any input, any curve function; through the line parser, the stable sort, the break
+   post-processing and the per-object loop): every start time is within the parse limits, and the
+   stored duration of a spinner / hold is max(0, fl(e - start)) resp. fl(max(start, e) - start) for
+   an end e within the parse limits.  So the C02_times_ok_* theorems, stated on the decoder's form,
+   speak about the objects of decoded maps. *)
+Theorem C02_decoded_durations_have_decoder_form :
+  forall dist lines m,
+  decode_beatmap dist lines = Done m ->
+  Forall (fun h =>
+            in_lim64 (h_start h) = true /\
+            match h_kind h with
+            | KSpinner s => exists e, in_lim64 e = true /\ sp_duration s = spinner_dur (h_start h) e
+            | KHold hd => exists e, in_lim64 e = true /\ hd_duration hd = hold_dur (h_start h) e
+            | _ => True
+            end) (hov_hit_objects (bmv_ho m)).
+Proof. exact decoded_durations_form. Qed.
+Print Assumptions C02_decoded_durations_have_decoder_form.
+
+(* what a decoded object in class D33 looks like: its line had an end e whose difference to the
+   start is NOT a binary64 number (C02_times_ok_exact_difference) and which the written end
+   fl(start + d) does not reproduce (C02_times_ok_of_end) *)
+Theorem C02_decoded_d33_inexact :
+  forall dist lines m h,
+  decode_beatmap dist lines = Done m -> In h (hov_hit_objects (bmv_ho m)) -> d33_object h = true ->
+  in_lim64 (h_start h) = true /\
+  exists e, in_lim64 e = true /\
+    match h_kind h with
+    | KSpinner s => sp_duration s = spinner_dur (h_start h) e /\ D.add (h_start h) (sp_duration s) <> e
+    | KHold hd => hd_duration hd = hold_dur (h_start h) e /\ (D.lt (h_start h) e = true -> D.add (h_start h) (hd_duration hd) <> e)
+    | _ => False
+    end /\
+    ~ Generic_fmt.generic_format Zaux.radix2 (SpecFloat.fexp 53 1024)
+        (Rdefinitions.Rminus (B2R e) (B2R (h_start h))).
+Proof. exact decoded_d33_inexact. Qed.
+Print Assumptions C02_decoded_d33_inexact.
+
+(* on the stored data alone: start and duration in whole milliseconds are never in the class *)
+Theorem C02_whole_milliseconds_not_d33 :
+  forall h a b,
+  h_start h = D.of_Z a ->
+  match h_kind h with
+  | KSpinner s => sp_duration s = D.of_Z b
+  | KHold hd => hd_duration hd = D.of_Z b
+  | _ => True
+  end ->
+  Z.abs a < 2 ^ 53 -> 0 <= b < 2 ^ 53 -> Z.abs (a + b) < 2 ^ 53 ->
+  d33_object h = false.
+Proof. exact whole_ms_not_d33. Qed.
+Print Assumptions C02_whole_milliseconds_not_d33.
+
+(* more generally, for the objects of decoded maps: whenever the real sum start + duration of the
+   STORED values is a binary64 number (the encoder's addition does not round) the object is not in
+   the class -- in particular when both lie on a common binary grid 2^-k with
+   |start + duration| < 2^(53-k) *)
+Theorem C02_decoded_exact_sum_not_d33 :
+  forall dist lines m h,
+  decode_beatmap dist lines = Done m -> In h (hov_hit_objects (bmv_ho m)) ->
+  match h_kind h with
+  | KSpinner sp => Generic_fmt.generic_format Zaux.radix2 (SpecFloat.fexp 53 1024)
+                     (Rdefinitions.Rplus (B2R (h_start h)) (B2R (sp_duration sp)))
+  | KHold hd => Generic_fmt.generic_format Zaux.radix2 (SpecFloat.fexp 53 1024)
+                     (Rdefinitions.Rplus (B2R (h_start h)) (B2R (hd_duration hd)))
+  | _ => True
+  end ->
+  d33_object h = false.
+Proof. exact decoded_sum_exact_not_d33. Qed.
+Print Assumptions C02_decoded_exact_sum_not_d33.
+
+Theorem C02_decoded_grid_not_d33 :
+  forall dist lines m h (k a b : Z),
+  decode_beatmap dist lines = Done m -> In h (hov_hit_objects (bmv_ho m)) ->
+  0 <= k <= 1074 ->
+  B2R (h_start h) = Rdefinitions.Rmult (Rdefinitions.IZR a) (Raux.bpow Zaux.radix2 (- k)) ->
+  match h_kind h with
+  | KSpinner sp => B2R (sp_duration sp) = Rdefinitions.Rmult (Rdefinitions.IZR b) (Raux.bpow Zaux.radix2 (- k))
+  | KHold hd => B2R (hd_duration hd) = Rdefinitions.Rmult (Rdefinitions.IZR b) (Raux.bpow Zaux.radix2 (- k))
+  | _ => True
+  end ->
+  Z.abs (a + b) < 2 ^ 53 -> d33_object h = false.
+Proof. exact decoded_grid_not_d33. Qed.
+Print Assumptions C02_decoded_grid_not_d33.
+
+(* two slider facts about EVERY map decoded with the real curve model: a combo offset is only
+   present next to the new-combo flag (the decoder stores `if new_combo { offset } else { 0 }` with
+   new_combo the bit of the type field, and every later step only SETS the flag) -- so "a slider
+   combo offset without the new-combo bit" is not in the decoder's image --, and the curve of
+   every slider is computable (the per-object loop has computed it) *)
+Theorem C02_decoded_slider_invariants :
+  forall lm lines m,
+  decode_beatmap (dist_real lm) lines = Done m ->
+  Forall (fun h => match h_kind h with
+                   | KSlider s => sl_new_combo s || (sl_combo_offset s =? 0) = true /\
+                                  exists c, slider_curve lm s = Done c
+                   | _ => True
+                   end) (hov_hit_objects (bmv_ho m)).
+Proof. exact decoded_slider_inv. Qed.
+Print Assumptions C02_decoded_slider_invariants.
+
+(* [obj_in_class lm mode h]: the disjunction of the recorded classes of one object, a boolean --
+     circle:          D30
+     spinner / hold:  D30 || D26 || D33
+     slider:          D30 || D13 || D17 || consecutive Catmull || D21 || D22 (read under another mode)
+   For an object of a decoded map, "in no class" gives [obj_classes], the hypothesis of
+   C02_round_trip_decoded_map (for spinners and holds the two are equivalent). *)
+Example C02_obj_in_class_unfolded :
+  forall lm mode h,
+  obj_in_class lm mode h =
+  match h_kind h with
+  | KCircle _ => d30_class h
+  | KSpinner _ | KHold _ => d30_class h || d26_class h || d33_object h
+  | KSlider s =>
+      d30_class h || d13_class (sl_control_points s) || d17_class (sl_control_points s) ||
+      consec_catmull (sl_control_points s) || d21_slider lm s || d22_slider mode s
+  end.
+Proof. reflexivity. Qed.
+
+Theorem C02_decoded_object_outside_classes :
+  forall lm lines m h,
+  Forall no_lf_line lines -> decode_beatmap (dist_real lm) lines = Done m ->
+  In h (hov_hit_objects (bmv_ho m)) ->
+  forall mode, obj_in_class lm mode h = false -> obj_classes lm mode h.
+Proof. exact decoded_obj_classes. Qed.
+Print Assumptions C02_decoded_object_outside_classes.
+
+Theorem C02_spinner_hold_classes_equivalent :
+  forall lm mode h,
+  (match h_kind h with KSpinner _ | KHold _ => True | _ => False end) ->
+  (obj_classes lm mode h <-> obj_in_class lm mode h = false).
+Proof. exact obj_classes_spinner_hold. Qed.
+Print Assumptions C02_spinner_hold_classes_equivalent.
+
+(* THE TOP-LEVEL STATEMENT, every object-level hypothesis a decidable class predicate on the decoded
+   map: [d23_class] (D23), [rt_classes] (D8 / D28 / D34, D27, D12, D26 / D32), [objects_in_classes]
+   (= existsb obj_in_class: D30, D26, D33, D13, D17, consecutive Catmull, D21, D22), each class
+   refuted by a decodable input (C02_catmull_duplicate_refuted D13, C02_repeated_type_segment_refuted
+   D17, C02_consecutive_catmull_refuted, C02_mode_after_timing_points_refuted D22,
+   C02_decoded_end_beyond_limit_refuted D26, C02_times_ok_refuted / C02_d33_decoded_witness D33,
+   C02_slider_node_file_name_lost D31, C02_scroll_speed_refuted D12, C02_sv_near_one_refuted D27,
+   C02_near_time_refuted D28; D21 / D30 / D23: known_findings.json), plus the boolean
+   [combo_chain] (below: replaced by the property's own hypothesis).  The conclusion is that of
+   C02_round_trip_decoded_map, with the slider's combo offset preserved unconditionally
+   ([final_rel_classes]: sl_combo_offset s' = sl_combo_offset s) and the velocities
+   (C02_round_trip_velocities) included.  A node's file name (D31) is the premise
+   "first_file l = None" inside the relation. *)
+Theorem C02_round_trip_decoded_map_classes :
+  forall lm fmt_f64 fmt_f32 fmt_int,
+  fmt_ok fmt_f64 fmt_f32 fmt_int -> no_leading_zero fmt_int -> fmt_f32_int fmt_f32 fmt_int ->
+  forall events lines m c ls dist2 m2,
+  Forall no_lf_line lines -> decode_beatmap (dist_real lm) lines = Done m -> d23_class m = false ->
+  enc_control_points (dist_real lm) events m = Done c ->
+  rt_classes (g_mode (hov_general (bmv_ho m))) c = true ->
+  objects_in_classes lm m = false ->
+  combo_chain (ev_breaks (hov_events (bmv_ho m))) true (hov_hit_objects (bmv_ho m)) = true ->
+  encode_lines (dist_real lm) events m = Done ls ->
+  decode_beatmap dist2 (map (render fmt_f64 fmt_f32 fmt_int) ls) = Done m2 ->
+  let c0 := hov_control_points (bmv_ho m) in
+  let c2 := hov_control_points (bmv_ho m2) in
+  (bmv_version m2 = bmv_version m /\
+   hov_general (bmv_ho m2) = hov_general (bmv_ho (read_back m)) /\
+   bmv_editor m2 = bmv_editor (read_back m) /\
+   bmv_metadata m2 = bmv_metadata (read_back m) /\
+   hov_difficulty (bmv_ho m2) = hov_difficulty (bmv_ho (read_back m)) /\
+   hov_events (bmv_ho m2) = hov_events (bmv_ho (read_back m)) /\
+   bmv_colors m2 = bmv_colors (read_back m)) /\
+  (cp_timing c2 = cp_timing c0 /\
+   (forall t, sv_at c2 t = sv_at c0 t) /\
+   (forall t, kiai_at c2 t = kiai_at c0 t) /\
+   (forall t, scroll_at c2 t = scroll_at c0 t)) /\
+  Forall2 (final_rel_classes lm) (hov_hit_objects (bmv_ho m)) (hov_hit_objects (bmv_ho m2)) /\
+  Forall2 same_velocity (hov_hit_objects (bmv_ho m)) (hov_hit_objects (bmv_ho m2)).
+Proof. exact round_trip_decoded_map_classes. Qed.
+Print Assumptions C02_round_trip_decoded_map_classes.
+
+(* ... and with the property's own hypothesis, chronological hit-object lines: apart from it (and
+   the Display hypotheses) ONLY recorded classes *)
+Theorem C02_round_trip_chronological_classes :
+  forall lm fmt_f64 fmt_f32 fmt_int,
+  fmt_ok fmt_f64 fmt_f32 fmt_int -> no_leading_zero fmt_int -> fmt_f32_int fmt_f32 fmt_int ->
+  forall events lines m c ls dist2 m2,
+  Forall no_lf_line lines -> decode_beatmap (dist_real lm) lines = Done m -> d23_class m = false ->
+  Sorted.StronglySorted Z.le (map start_key (raw_objects lines)) ->
+  enc_control_points (dist_real lm) events m = Done c ->
+  rt_classes (g_mode (hov_general (bmv_ho m))) c = true ->
+  objects_in_classes lm m = false ->
+  encode_lines (dist_real lm) events m = Done ls ->
+  decode_beatmap dist2 (map (render fmt_f64 fmt_f32 fmt_int) ls) = Done m2 ->
+  let c0 := hov_control_points (bmv_ho m) in
+  let c2 := hov_control_points (bmv_ho m2) in
+  (bmv_version m2 = bmv_version m /\
+   hov_general (bmv_ho m2) = hov_general (bmv_ho (read_back m)) /\
+   bmv_editor m2 = bmv_editor (read_back m) /\
+   bmv_metadata m2 = bmv_metadata (read_back m) /\
+   hov_difficulty (bmv_ho m2) = hov_difficulty (bmv_ho (read_back m)) /\
+   hov_events (bmv_ho m2) = hov_events (bmv_ho (read_back m)) /\
+   bmv_colors m2 = bmv_colors (read_back m)) /\
+  (cp_timing c2 = cp_timing c0 /\
+   (forall t, sv_at c2 t = sv_at c0 t) /\
+   (forall t, kiai_at c2 t = kiai_at c0 t) /\
+   (forall t, scroll_at c2 t = scroll_at c0 t)) /\
+  Forall2 (final_rel_classes lm) (hov_hit_objects (bmv_ho m)) (hov_hit_objects (bmv_ho m2)) /\
+  Forall2 same_velocity (hov_hit_objects (bmv_ho m)) (hov_hit_objects (bmv_ho m2)).
+Proof. exact round_trip_chronological_classes. Qed.
+Print Assumptions C02_round_trip_chronological_classes.
+
+(* the concrete decoded map of C02_round_trip_example satisfies the new hypotheses: no object in any
+   class (object by object, and D33 separately), combo chain consistent ... *)
+Example C02_round_trip_classes_hypotheses_example :
+  match decode_beatmap (dist_real lm0) (lines_of_text all_kinds_text) with
+  | Done m =>
+      match enc_control_points (dist_real lm0) events_real m with
+      | Done c =>
+          forallb (fun l => negb (memb ch_lf l)) (lines_of_text all_kinds_text) = true /\
+          d23_class m = false /\
+          rt_classes (g_mode (hov_general (bmv_ho m))) c = true /\
+          objects_in_classes lm0 m = false /\
+          map (obj_in_class lm0 (g_mode (hov_general (bmv_ho m)))) (hov_hit_objects (bmv_ho m)) = [false; false; false; false] /\
+          map d33_object (hov_hit_objects (bmv_ho m)) = [false; false; false; false] /\
+          combo_chain (ev_breaks (hov_events (bmv_ho m))) true (hov_hit_objects (bmv_ho m)) = true /\
+          map (fun h => kind_tag (h_kind h)) (hov_hit_objects (bmv_ho m)) = [0; 1; 2; 3]
+      | _ => False
+      end
+  | _ => False
+  end.
+Proof. exact all_kinds_classes_facts. Qed.
+
+(* ... so the conclusion of C02_round_trip_chronological_classes holds of it, for every formatting
+   and every second curve function *)
+Example C02_round_trip_classes_example :
+  forall fmt_f64 fmt_f32 fmt_int, fmt_ok fmt_f64 fmt_f32 fmt_int -> no_leading_zero fmt_int -> fmt_f32_int fmt_f32 fmt_int ->
+  exists m c ls,
+    decode_beatmap (dist_real lm0) (lines_of_text all_kinds_text) = Done m /\
+    enc_control_points (dist_real lm0) events_real m = Done c /\
+    encode_lines (dist_real lm0) events_real m = Done ls /\
+    d23_class m = false /\ rt_classes (g_mode (hov_general (bmv_ho m))) c = true /\
+    objects_in_classes lm0 m = false /\
+    Sorted.StronglySorted Z.le (map start_key (raw_objects (lines_of_text all_kinds_text))) /\
+    map (fun h => kind_tag (h_kind h)) (hov_hit_objects (bmv_ho m)) = [0; 1; 2; 3] /\
+    forall dist2 m2, decode_beatmap dist2 (map (render fmt_f64 fmt_f32 fmt_int) ls) = Done m2 ->
+      let c0 := hov_control_points (bmv_ho m) in
+      let c2 := hov_control_points (bmv_ho m2) in
+      (bmv_version m2 = bmv_version m /\
+       hov_general (bmv_ho m2) = hov_general (bmv_ho (read_back m)) /\
+       bmv_editor m2 = bmv_editor (read_back m) /\
+       bmv_metadata m2 = bmv_metadata (read_back m) /\
+       hov_difficulty (bmv_ho m2) = hov_difficulty (bmv_ho (read_back m)) /\
+       hov_events (bmv_ho m2) = hov_events (bmv_ho (read_back m)) /\
+       bmv_colors m2 = bmv_colors (read_back m)) /\
+      (cp_timing c2 = cp_timing c0 /\
+       (forall t, sv_at c2 t = sv_at c0 t) /\
+       (forall t, kiai_at c2 t = kiai_at c0 t) /\
+       (forall t, scroll_at c2 t = scroll_at c0 t)) /\
+      Forall2 (final_rel_classes lm0) (hov_hit_objects (bmv_ho m)) (hov_hit_objects (bmv_ho m2)) /\
+      Forall2 same_velocity (hov_hit_objects (bmv_ho m)) (hov_hit_objects (bmv_ho m2)).
+Proof. exact all_kinds_round_trip_classes. Qed.
+
 (* ---------- status of the obligations ----------
 
    TOP LEVEL  C02_round_trip_decoded_map (and C02_round_trip_chronological, with "the accepted
@@ -1270,6 +1572,21 @@ Proof. exact all_kinds_round_trip. Qed.
      map with a circle, a slider, a spinner, a hold, a break and an inherited timing line; real curve
      and slider-event models).  The lines are the decoder's line list; the byte / text layer is
      C08 / C10.
+     WITH ONLY RECORDED CLASSES AS OBJECT HYPOTHESES: C02_round_trip_decoded_map_classes /
+     C02_round_trip_chronological_classes.  The per-object Prop [obj_classes] (curve computable,
+     [slider_ok], [spinner_time_ok] / [hold_time_ok]) is replaced by the boolean
+     [objects_in_classes lm m = false] -- no object in D30, D26, D33 (spinner / hold), D13, D17,
+     consecutive Catmull, D21, D22 (slider) -- and is DERIVED from it for the objects of a decoded
+     map (C02_decoded_object_outside_classes): the image parts of [slider_ok] are invariants
+     (C04_decoded_objects_image, C04_decoded_samples_image), the curve of every decoded slider is
+     computable (C02_decoded_slider_invariants), the time condition is the complement of the
+     decidable class D33 (C02_d33_class_is_the_time_condition).  What these two theorems still
+     assume besides the classes: the Display hypotheses, "no line holds a line feed" (true of every
+     line list the line splitter produces), chronological hit-object lines (the property's own
+     hypothesis; [combo_chain] in the first form), and that the encoder and the second decode return
+     (`= Done`).  D31 (a file name on a slider node) is not a hypothesis but the premise
+     "first_file l = None" of the node clause of the relation.  Satisfiable:
+     C02_round_trip_classes_hypotheses_example / C02_round_trip_classes_example (the same map).
 
    T02b  circles / spinners / holds: MECHANISED per line, up to [carry_object] (per-sample volume /
      custom index / suffix / layering erased), for decoded maps with the hypotheses discharged
@@ -1286,9 +1603,21 @@ Proof. exact all_kinds_round_trip. Qed.
      difference is a binary64 number (C02_times_ok_exact_difference; binary grids: C02_times_ok_grid,
      C02_times_ok_grid21; whole milliseconds: C02_times_ok_whole_milliseconds, C02_times_ok_partial;
      any fractional times with start / 2 <= end <= 2 * start: C02_times_ok_sterbenz)
-     and whenever the written end is the end that was read (C02_times_ok_of_end).  OPEN between these
-     classes and D33: pairs whose difference is rounded but whose duration survives (most
-     fractional times; the oracle checks each instance).
+     and whenever the written end is the end that was read (C02_times_ok_of_end).
+     D33 AS A CLASS: [d33_object h] is the boolean "clip(fl(fl(start + d) - start)) <> d" on the STORED
+     start and duration, the exact complement of the time condition
+     (C02_d33_class_is_the_time_condition), inhabited by a decoded map (C02_d33_decoded_witness);
+     the top-level theorems take "not in D33" and nothing else about the times.  The stored
+     duration of EVERY decoded spinner / hold has the decoder's form max(0, fl(e - start)) resp.
+     fl(max(start, e) - start) for an end e within the parse limits, and every start is within the
+     limits (C02_decoded_durations_have_decoder_form: line parser, stable sort, break post-processing,
+     per-object loop) -- so the C02_times_ok_* theorems apply to decoded objects: an object in D33 had
+     an end whose difference to the start is not a binary64 number and that fl(start + d) does not
+     reproduce (C02_decoded_d33_inexact); whole-millisecond stored times are never in D33
+     (C02_whole_milliseconds_not_d33), nor is any decoded object whose stored start + duration is a
+     binary64 number (C02_decoded_exact_sum_not_d33; binary grids C02_decoded_grid_not_d33).  OPEN: a closed arithmetic description of D33 (WHICH pairs
+     with a rounded difference lose the duration; most fractional pairs do not) -- not needed by the
+     theorems, which are stated with the decidable class itself; the oracle checks each instance.
 
    T02c  slider path strings: MECHANISED in full (C02_path_round_trip on the decoder's image
      C02_path_image_is_decoder_image, outside D13 / D17 / consecutive Catmull).
@@ -1312,9 +1641,14 @@ Proof. exact all_kinds_round_trip. Qed.
      order on the original input is class D22).  The image premises of the node clause are FACTS
      about every decoded map (C02_decoded_slider_nodes_image), discharged in the top-level theorems
      ([final_rel_decoded]).  The velocities of corresponding sliders agree: C02_round_trip_velocities
-     (a separate statement under the same hypotheses).  LEFT OPEN: the combo offset of a slider is
-     shown to survive only next to the new-combo bit (an offset without the bit cannot be produced
-     by the decoder; not mechanised for sliders).
+     (a separate statement under the same hypotheses; part of the conclusion of the _classes forms).
+     The combo offset of a slider: [final_rel] / [final_rel_decoded] say "offset if new combo, else
+     0"; a slider of a decoded map carries an offset only next to the new-combo flag
+     (C02_decoded_slider_invariants: the decoder stores `if new_combo { offset } else { 0 }` for the
+     type field's own bit, the parser state and the break post-processing only SET the flag), so the
+     _classes forms state sl_combo_offset s' = sl_combo_offset s unconditionally
+     ([final_rel_classes]).  An offset without the bit is therefore not a finding: it is outside the
+     decoder's image.
 
    Everything above is also covered by the bit-exact `enc` correspondence (decode + encode model
    against the crate, slider files included) and by the C02 oracle, which compares exactly the
